@@ -56,6 +56,9 @@ type Target struct {
 	ConfigKey   string            `json:"config_key,omitempty"` // the command embeds CONFIG.<KEY> (from [buildconfig])
 	BuildEnv    string            `json:"build_env,omitempty"`  // the command prints $<VAR> (from [buildenv])
 	Content     string            `json:"content,omitempty"`    // text_file
+	// PreBuild (added for C24; never set by Generate, zero value = the behaviour above): the target is
+	// built through the `prgen` macro, whose pre-build function appends Repo.PreSalt to the command.
+	PreBuild bool `json:"pre_build,omitempty"`
 }
 
 // Label returns the model target's (public) build label.
@@ -87,6 +90,12 @@ type Repo struct {
 	DefsGen     bool              `json:"defs_gen,omitempty"`  // build_defs file is produced by a genrule (a build is needed while parsing)
 	NoDefs      bool              `json:"no_defs,omitempty"`   // no build_defs package at all (then no Lib / PostBuild targets)
 	ExtraConfig string            `json:"extra_config,omitempty"`
+	// Light (added for C07; zero value = the behaviour above) makes every generated build command use
+	// shell builtins only (no find / sort / cksum processes): see lightCommand.
+	Light bool `json:"light,omitempty"`
+	// PreSalt (added for C24) is what the `prgen` pre-build function makes the command print; the
+	// macro is only rendered into the build_defs file when some target has PreBuild.
+	PreSalt string `json:"pre_salt,omitempty"`
 }
 
 // Clone returns a deep copy.
@@ -372,6 +381,9 @@ func (t *Target) body() string {
 // of the declared inputs: it prints the salt, what the build directory contains, the named source
 // groups, env and config values, and what its tools print.
 func (r *Repo) Command(t *Target) string {
+	if r.Light {
+		return r.lightCommand(t)
+	}
 	c := []string{listing}
 	if t.IsTool {
 		out := t.AllOuts()[0]
@@ -523,6 +535,8 @@ func (r *Repo) Render(t *Target, o RenderOpts) string {
 		rule := "genrule"
 		if t.PostBuild {
 			rule = "pbgen"
+		} else if t.PreBuild {
+			rule = "prgen"
 		}
 		w("%s(\n    name = %s,\n    srcs = %s,\n", rule, q(t.Name), srcsExpr())
 		if t.NamedOuts != nil {
@@ -561,6 +575,21 @@ func (r *Repo) renderTools(t *Target, o RenderOpts, w func(string, ...any)) {
 // DefsText is the build_defs file: `lib` creates a hidden child and a public filegroup that
 // provides it; `pbgen` is a genrule with a post-build function.
 func (r *Repo) DefsText() string {
+	if r.Light {
+		return strings.Replace(r.heavyDefsText(), heavyLibCmd(r.DefsSalt), lightLibCmd(r.DefsSalt), 1)
+	}
+	return r.heavyDefsText()
+}
+
+func heavyLibCmd(defsSalt string) string {
+	return `"export LC_ALL=C; L=\"$(find . -type f | sort | xargs -r cksum)\"; { echo ` + defsSalt + ` " + salt + "; echo \"$L\"; } > $OUT"`
+}
+
+func lightLibCmd(defsSalt string) string {
+	return `"` + strings.ReplaceAll(lightPrologue, `"`, `\"`) + `; { echo ` + defsSalt + ` " + salt + "; echo \"$SRCS\"; cats $SRCS; } > $OUT"`
+}
+
+func (r *Repo) heavyDefsText() string {
 	return fmt.Sprintf(`def lib(name, srcs, salt, deps=None, visibility=None, test_only=False, labels=[]):
     a = build_rule(
         name = name,
@@ -617,7 +646,7 @@ func (r *Repo) UsesDefs() bool {
 
 func (r *Repo) pkgUsesDefs(pkg string) bool {
 	for _, t := range r.Targets {
-		if t.Pkg == pkg && (t.Kind == Lib || t.PostBuild) {
+		if t.Pkg == pkg && (t.Kind == Lib || t.PostBuild || t.PreBuild) {
 			return true
 		}
 	}
@@ -719,7 +748,7 @@ func (r *Repo) AllFiles(o RenderOpts) map[string]string {
 		out[k] = v
 	}
 	if r.UsesDefs() {
-		out[r.DefsFile()] = r.DefsText()
+		out[r.DefsFile()] = r.DefsText() + r.preDefsText() // preDefsText is "" unless a target has PreBuild (C24)
 	}
 	return out
 }
@@ -884,4 +913,60 @@ func (r *Repo) Closure(from []string) map[string]bool {
 		walk(l)
 	}
 	return seen
+}
+
+// ---- light commands (Repo.Light) ----
+
+// lightPrologue defines, with shell builtins only, `rd FILE` (print a file) and `cats PATH...`
+// (print every regular file among the paths, descending into directories in C-locale glob order).
+const lightPrologue = `export LC_ALL=C; rd() { while IFS= read -r l || [ -n "$l" ]; do echo "$l"; done < "$1"; }; cats() { for f in "$@"; do if [ -f "$f" ]; then echo "== $f"; rd "$f"; elif [ -d "$f" ]; then cats "$f"/*; fi; done; }`
+
+// lightCommand is Command for Repo.Light: still a deterministic function of the declared inputs
+// (salt, $SRCS and the contents of the sources, named source groups, env and config values, the tool
+// paths and tool file contents), but it starts no process besides the shell itself. Tools are read,
+// not executed. Output sub-directories are created by Please before the command runs.
+func (r *Repo) lightCommand(t *Target) string {
+	c := []string{lightPrologue}
+	if t.IsTool {
+		out := t.AllOuts()[0]
+		c = append(c, fmt.Sprintf(`{ echo '#!/bin/sh'; echo "echo tool-%s"; echo "$SRCS"; cats $SRCS; } > "%s"`, t.Salt, out))
+		return strings.Join(c, "; ")
+	}
+	var extra []string
+	for _, k := range SortedKeys(t.NamedSrcs) {
+		extra = append(extra, fmt.Sprintf(`echo "%s=$SRCS_%s"`, k, strings.ToUpper(k)))
+	}
+	for _, k := range SortedKeys(t.Env) {
+		extra = append(extra, fmt.Sprintf(`echo "%s=$%s"`, k, k))
+	}
+	if t.BuildEnv != "" {
+		extra = append(extra, fmt.Sprintf(`echo "benv=$%s"`, envName(t.BuildEnv)))
+	}
+	if len(t.Tools) > 0 {
+		extra = append(extra, `for x in $TOOLS; do echo "tool ${x##*/}"; rd "$x"; done`)
+	}
+	for _, k := range SortedKeys(t.NamedTools) {
+		extra = append(extra, fmt.Sprintf(`for x in $TOOLS_%s; do echo "%s ${x##*/}"; rd "$x"; done`, strings.ToUpper(k), k))
+	}
+	body := `echo "$SRCS"; cats $SRCS`
+	switch t.Op {
+	case "names":
+		body = `echo "$SRCS"`
+	case "const":
+		body = `true`
+	}
+	for i, out := range t.AllOuts() {
+		line := fmt.Sprintf(`{ echo "%s %d"; %s; `, t.Salt, i, body)
+		if t.ConfigKey != "" {
+			line += `echo "cfg=` + cfgToken + `"; `
+		}
+		if i == 0 {
+			for _, e := range extra {
+				line += e + "; "
+			}
+		}
+		line += fmt.Sprintf(`} > "%s"`, out)
+		c = append(c, line)
+	}
+	return strings.Join(c, "; ")
 }
